@@ -544,9 +544,9 @@ class PSBTView:
         # default sighash is used only in taproot
         if sh == SIGHASH.DEFAULT:
             sh = SIGHASH.ALL
-        # no corresponding output for this input, we sign 00...01
+        # no corresponding output for this input, we sign uint256 one (little endian)
         if sh == SIGHASH.SINGLE and input_index >= self.num_outputs:
-            return b"\x00" * 31 + b"\x01"
+            return b"\x01" + b"\x00" * 31
 
         h = hashlib.sha256()
         h.update(self.tx_version.to_bytes(4, "little"))
